@@ -4,7 +4,7 @@ import ast
 from ..program import AnalysisError, U, own_nodes, walk_no_nested
 from ..dataflow import ReachingDefs, defs_of_node
 from ..consteval import fold
-from .common import (need, guards_of, calls_to, ext_calls, all_paths_pass, succs, normal_succs, path_conditions,
+from .common import (match_exact, guard_atom_sets, path_atom_sets, unmatched, need, guards_of, calls_to, ext_calls, all_paths_pass, succs, normal_succs, path_conditions,
                      is_param, interval_of, arg_of, default_of, INF, stores_in_package, lin_cmp)
 from .C04 import _paths_avoiding
 
@@ -65,7 +65,7 @@ def gate(R):
     need(len(rc) == 1, 'run._regular: expected one self._regular call')
     n, c = rc[0]
     lits = {(t, p) for (t, p, _) in guards_of(g, n)}
-    R.ob('C15.gate', 'housekeeping generator only when ready', lits == {('self._ready', True)},
+    R.ob('C15.gate', 'housekeeping generator only when ready', match_exact(guard_atom_sets(g, n), [{('self._ready', True)}]),
          'self._regular(...) is created under %s' % sorted(lits), func=q, node=c)
     # all uses of the housekeeping generator in run go through the closure
     direct = [c_.func.qual for (c_, call, t) in R.types.callers.get(S + '._regular', [])]
@@ -86,7 +86,7 @@ def gate(R):
         sn = [m for m in g2.live_nodes() if m.ast is tw[0][1]]
         lits = {(t, p) for (t, p, _) in guards_of(g2, sn[0])} if sn else set()
         orc = [m for (m, _) in calls_to(R, g2, S + '._on_ready')]
-        ok = lits == {("%s.name == 'ready'" % ev, True)} and bool(orc) and all_paths_pass(g2, [g2.entry], orc, sn, skip_edge=nx)
+        ok = bool(sn) and match_exact(guard_atom_sets(g2, sn[0]), [{("%s.name == 'ready'" % ev, True)}]) and bool(orc) and all_paths_pass(g2, [g2.entry], orc, sn, skip_edge=nx)
         R.ob('C15.gate', '_ready set on the ready event, after _on_ready()', ok, '_ready = True under %s' % sorted(lits),
              func=q2, node=tw[0][1])
     q3 = S + '._on_ready'
@@ -136,7 +136,8 @@ def poll(R):
         for l in path_conditions(R, g, rd, g.entry, r):
             first = ('self._poll_start is None', True) in l
             el = any(x == want or x == (want[0], '>') for x in _lits_lin(l, alias))
-            extra = {x for x in l if x[1] and x[0] != 'self._poll_start is None' and lin_cmp(x[0], True, alias) is None}
+            extra = unmatched(path_atom_sets(l), lambda f: any(t == 'self._poll_start is None' for (t, p_) in f) or any(
+                lin_cmp(t, p_, alias) in (want, (want[0], '>')) for (t, p_) in f))
             if not (first or el) or extra:
                 bad.append(sorted(l))
         R.ob('C15.poll', 'Poll only when first or elapsed >= poll', not bad, 'Poll fires under %s' % bad[:1], func=f, node=r.ast)
@@ -174,7 +175,7 @@ def ping(R):
     for l in path_conditions(R, g, rd, g.entry, n):
         en = (rate, True) in l
         due = any(x == want for x in _lits_lin(l, {}))
-        extra = {x for x in l if x not in {(rate, True)} and lin_cmp(x[0], x[1], {}) != want}
+        extra = unmatched(path_atom_sets(l), lambda f: (rate, True) in f or any(lin_cmp(t, p_, {}) == want for (t, p_) in f))
         if not (en and due) or extra:
             bad.append(sorted(l))
     R.ob('C15.ping', 'ping iff enabled and due', not bad, 'automatic Ping sent under %s' % bad[:1], func=f, node=c)
@@ -242,7 +243,7 @@ def pong(R):
         for l in path_conditions(R, g, rd, g.entry, r):
             lins = _lits_lin(l, alias)
             if isT:
-                extra = {x for x in l if x != (to, True) and lin_cmp(x[0], x[1], alias) != want}
+                extra = unmatched(path_atom_sets(l), lambda f: (to, True) in f or any(lin_cmp(t, p_, alias) == want for (t, p_) in f))
                 if (to, True) not in l or want not in lins or extra:
                     bad.append(sorted(l))
             else:
@@ -266,7 +267,7 @@ def pong(R):
              'after Unresponsive the generator can continue without raising _ForceDisconnect', func=q3, node=y.ast)
         lits = {(t, p) for (t, p, _) in guards_of(g3, y)}
         pc = [c for n in g3.live_nodes() for c in n.calls if R.types.resolves_to(c, g3.ctx, q)]
-        ok = len(lits) == 1 and len(pc) == 1 and list(lits)[0] == (U(pc[0]), True)
+        ok = len(pc) == 1 and match_exact(guard_atom_sets(g3, y), [{(U(pc[0]), True)}])
         R.ob('C15.pong', 'Unresponsive exactly when the timeout check fires', ok, 'Unresponsive under %s' % sorted(lits),
              func=q3, node=y.ast)
 
@@ -289,7 +290,8 @@ def close(R, RID='C15.close'):
         bad = []
         for l in path_conditions(R, g, rd, g.entry, r):
             lins = _lits_lin(l, alias)
-            extra = {x for x in l if x not in {(to, True), ('%s is None' % sent, False)} and lin_cmp(x[0], x[1], alias) != want}
+            extra = unmatched(path_atom_sets(l), lambda f: (to, True) in f or ('%s is None' % sent, False) in f or any(
+                lin_cmp(t, p_, alias) == want for (t, p_) in f))
             if (to, True) not in l or ('%s is None' % sent, False) not in l or want not in lins or extra:
                 bad.append(sorted(l))
         R.ob(RID, 'forced disconnect exactly under the close-timeout condition', not bad and toks == {'session._ForceDisconnect'},
